@@ -24,6 +24,6 @@ CHECKS = [
     Check("greedy_sim", sim_execute([J.judge_c02], J.nontrivial_c02), strategy=dag_worlds, budget={"quick": 2500, "thorough": 50000}),
     Check("planner_sim", sim_execute([J.judge_c02], J.nontrivial_c02, planner=True, max_steps=1500),
           strategy=lambda tier: specs.planner_worlds(names=("ILP", "TetriSched_Gurobi"), max_jobs=4), budget={"quick": 160, "thorough": 5000}),
-    Check("scripted_sim", sim_execute([J.judge_c02], J.nontrivial_c02, max_steps=1500), strategy=lambda tier: specs.scripted_worlds(),
+    Check("scripted_sim", sim_execute([J.judge_c02], J.nontrivial_c02, max_steps=1500), strategy=lambda tier: specs.scripted_worlds(zero_runtime=True),
           budget={"quick": 600, "thorough": 30000}),
 ]
